@@ -17,4 +17,10 @@ GROUPS += [
  dict(_D, name='dec_create', entry='h_dec_create', expect_canaries=2, functions=['opus_decoder_create', 'opus_decoder_destroy'],
       cbmc_flags=['--object-bits', '10', '--malloc-may-fail', '--malloc-fail-null', '--memory-leak-check'], what='opus_decoder_create: bad arguments, allocation failure, no leak'),
 ]
+GROUPS += [
+ dict(name='gen_toc', cls='F', tu='C11_toc.c', entry='h_gen_toc', dfcc=False, unwind=7, timeout=600, functions=['gen_toc', 'opus_packet_get_mode', 'opus_packet_get_samples_per_frame', 'opus_packet_get_nb_channels', 'opus_packet_get_bandwidth'],
+      what='for every (mode, legal frame size, legal bandwidth, channels, Fs) the TOC byte gen_toc builds reads back as exactly those settings'),
+ dict(name='frame_size_select', cls='P', tu='C11_toc.c', entry='h_frame_size_select', dfcc=False, unwind=2, timeout=600, functions=['frame_size_select'],
+      what='frame_size_select returns -1 or the legal Opus duration the variable_duration setting asks for'),
+]
 META = {}
